@@ -131,6 +131,10 @@ class Trace:
         adversarial = False    # the harness has played a misbehaving peer (Inject): the conformance predicates abstain from then on
         throttled = [False, False]  # the endpoint's sink has been throttled (Permits): frames may sit in its queue
         connects = {}          # fid -> number of Connect frames seen for it (either side)
+        acc_writes = [0, 0]    # writes accepted from the application of each endpoint (each is one Push frame, sooner or later)
+        pushes_out = [0, 0]    # Push frames each endpoint has put on the wire
+        healthy = True         # no transport failure, no adversarial message, no bridge so far
+        dropped_at = [None, None]  # label at which the application dropped the Multiplexor while everything was healthy
         reused = set()         # ids connected more than once: the per-stream predicates (C02, C03, C05) abstain there,
                                # because pairing the two ends' incarnations from the outside is not reliable; reuse is C06/C07's subject
         for k, l in enumerate(self.labels):
@@ -142,6 +146,8 @@ class Trace:
             if op == 27:
                 adversarial = True
                 self._abstain = True
+            if op in (27, 28, 30, 31, 32):
+                healthy = False
             if op == 29 and len(l) > 1 and l[1] in (0, 1):
                 throttled[l[1]] = True
             if op == 27 and res == [0]:
@@ -229,8 +235,31 @@ class Trace:
                                 self.fail('C03', "label %d: endpoint %d has acknowledged %d frames on flow %d but only %d were sent to it"
                                           % (k, e, acked[key], em[2], pushes.get(key, 0)))
                     link[e].append((em, k))
+            for ee in (0, 1):
+                pushes_out[ee] += sum(1 for m in emitted[ee] if m[0] == 'frame' and m[1] == 4)
+            if op in (13, 14) and res[:1] == [0] and len(l) > 1 and l[1] in (0, 1):
+                acc_writes[l[1]] += 1
+            if op == 26 and res == [0] and len(l) > 1 and l[1] in (0, 1):
+                if healthy and dropped_at == [None, None] and not ended[0] and not ended[1]:
+                    dropped_at[l[1]] = k
+                else:
+                    healthy = False     # a second drop, or a drop after something else went on: no verdict
             for i in range(0, len(done or []), 2):
                 if done[i] in (0, 1):
+                    ee = done[i]
+                    # C08, last clause: the application dropped the Multiplexor while the transport was healthy, the task has
+                    # ended: every write it had accepted before must have been put on the wire
+                    if healthy and dropped_at[ee] is not None and not ended[ee] and acc_writes[ee] > pushes_out[ee]:
+                        code = done[i + 1] if i + 1 < len(done) else -1
+                        if code in (101, 102):
+                            self.fail('C08', "label %d: the Multiplexor of endpoint %d was dropped (label %d) while the transport was healthy and while its "
+                                      "task was handing an incoming stream or datagram over to the application; the hand-over fails, the task ends "
+                                      "with that error (code %d) and %d frame(s) queued before the drop are never transmitted"
+                                      % (k, ee, dropped_at[ee], code, acc_writes[ee] - pushes_out[ee]), "drop-during-handover-loses-queued-frames")
+                        else:
+                            self.fail('C08', "label %d: the Multiplexor of endpoint %d was dropped (label %d) while the transport was healthy, its task has "
+                                      "ended (code %d), and %d frame(s) queued before the drop were never transmitted"
+                                      % (k, ee, dropped_at[ee], code, acc_writes[ee] - pushes_out[ee]))
                     ended[done[i]] = True
             e = l[1] if len(l) > 1 else 0
             if op == 10 and res[:1] in ([0], [1]):
